@@ -25,7 +25,7 @@ def main():
     prop = sys.argv[1]
     labels = json.load(open(sys.argv[2])) if len(sys.argv) > 2 else {}
     groups = {}
-    for f in sorted(glob.glob(os.path.join(core.OUT, "replays", prop, "*.json"))):
+    for f in sorted(glob.glob(os.path.join(core.OUT, "replays", prop, "*", "*.json"))):
         r = json.load(open(f))
         groups.setdefault(sig_of(r), []).append(r)
     lines = []
